@@ -1,6 +1,163 @@
 package mon
 
-import "verif/internal/ev"
+import (
+	"fmt"
+	"math/rand/v2"
+	"os"
 
-// runC16Segments is the store half of C16 (damaged segment files); filled in with the store monitors.
-func runC16Segments(r *ev.Run) {}
+	"verif/internal/ev"
+)
+
+// runC16Segments is the store half of C16: a directory with one intact segment (marker A) and one damaged segment
+// (marker B). For each of the component files of B every byte prefix (and the missing file) is tried: no B document
+// may be returned by any modality, every A document must be.
+func runC16Segments(r *ev.Run) {
+	nCases := r.Pick(3, 24)
+	r.Cases("segments", nCases, func(ci int, rng *rand.Rand) {
+		p := storeParams{VecKind: "flat", Text: true, Meta: true, Dim: 2 + rng.IntN(3), Metric: allMetrics[rng.IntN(3)], CompactionThreshold: 1000,
+			MemtableSizeLimit: 1 << 20, FlushThreshold: 1 << 40}
+		switch ci % 4 {
+		case 1:
+			p.Meta = false
+		case 2:
+			p.Text, p.Meta = false, false
+		case 3:
+			p.VecKind = ""
+		}
+		comps := []string{"hybrid"}
+		if p.VecKind != "" {
+			comps = append(comps, "vector")
+		}
+		if p.Text {
+			comps = append(comps, "text")
+		}
+		if p.Meta {
+			comps = append(comps, "metadata")
+		}
+		dir, err := os.MkdirTemp("", "verif-c16seg-*")
+		if err != nil {
+			panic(err)
+		}
+		defer os.RemoveAll(dir)
+		rep := func(sig, what string, extra map[string]any) {
+			w := map[string]any{"params": p.String()}
+			for k, v := range extra {
+				w[k] = v
+			}
+			r.ViolationAt("segments", ci, sig, p.String()+": "+what, w)
+		}
+		s, err := p.open(dir)
+		if err != nil {
+			rep("c16.segment.open-error", err.Error(), nil)
+			return
+		}
+		ids := newIDGen(rng)
+		ids.min = 1 << 24
+		A, B, ever := map[uint32]bool{}, map[uint32]bool{}, map[uint32]bool{}
+		for _, grp := range []map[uint32]bool{A, B} {
+			for i := 0; i < 2+rng.IntN(4); i++ {
+				d := genStoreDoc(rng, p, ids.next(), "x")
+				if err := s.AddWithID(d.ID, d.Vec, d.Text, d.Meta); err != nil {
+					rep("c16.segment.add-error", err.Error(), nil)
+					s.Close()
+					return
+				}
+				grp[d.ID], ever[d.ID] = true, true
+			}
+			if err := s.Flush(); err != nil {
+				rep("c16.segment.flush-error", err.Error(), nil)
+				s.Close()
+				return
+			}
+		}
+		segs := s.VerifSegmentIDs()
+		s.Close()
+		if len(segs) != 2 {
+			rep("c16.segment.setup", fmt.Sprintf("expected 2 segments, have %v", segs), nil)
+			return
+		}
+		segB := segs[0]
+		if segs[1] > segB {
+			segB = segs[1]
+		}
+		base, err := readImage(dir)
+		if err != nil {
+			panic(err)
+		}
+		tried := 0
+		for _, c := range comps {
+			name := fmt.Sprintf("%s_%06d.bin.gz", c, segB)
+			full := base[name]
+			// n = -1: file missing; 0: empty; 1..len-1: truncated
+			for n := -1; n < len(full); n++ {
+				img := base.with(name, nil)
+				if n < 0 {
+					delete(img, name)
+				} else {
+					img[name] = full[:n]
+				}
+				idir, err := os.MkdirTemp("", "verif-c16img-*")
+				if err != nil {
+					panic(err)
+				}
+				func() {
+					defer os.RemoveAll(idir)
+					img.materialise(idir)
+					what := fmt.Sprintf("%s cut to %d of %d bytes", name, n, len(full))
+					if n < 0 {
+						what = name + " missing"
+					}
+					wit := map[string]any{"damaged_file": name, "kept_bytes": n, "full_bytes": len(full)}
+					rs, err := p.open(idir)
+					if err != nil {
+						rep("c16.segment.open-fails", what+": Open failed: "+err.Error(), wit)
+						return
+					}
+					defer rs.Close()
+					for pass := 0; pass < 2; pass++ {
+						a := searchAllModalities(rs, p)
+						if a.Err != nil {
+							rep("c16.segment.search-fails", what+": "+a.Err.Error(), wit)
+							return
+						}
+						for mod, got := range map[string]map[uint32]bool{"vector": a.Vec, "text": a.Text, "metadata": a.Meta} {
+							if got == nil {
+								continue
+							}
+							nb := 0
+							for id := range B {
+								if got[id] {
+									nb++
+								}
+							}
+							if nb > 0 {
+								sig := "c16.segment.damaged-segment-contributes"
+								if n >= len(full)-8 && c == comps[len(comps)-1] {
+									sig += ".last-component-cut-inside-gzip-trailer"
+								}
+								rep(sig, fmt.Sprintf("%s: %d of %d documents of the damaged segment are returned by the %s query (search #%d)", what, nb, len(B), mod, pass+1), wit)
+								return
+							}
+							for id := range A {
+								if !got[id] {
+									rep("c16.segment.intact-segment-lost", fmt.Sprintf("%s: document %d of the intact segment is missing from the %s query", what, id, mod), wit)
+									return
+								}
+							}
+							for id := range got {
+								if !ever[id] {
+									rep("c16.segment.never-added-id", fmt.Sprintf("%s: id %d was never added", what, id), wit)
+									return
+								}
+							}
+						}
+					}
+				}()
+				tried++
+			}
+		}
+		r.Count("segment-damage-images-opened", int64(tried))
+		r.Count("segment-cases", 1)
+		r.Eval(true, ev.Digest("seg", p.String(), tried, ci))
+	})
+}
